@@ -1,6 +1,7 @@
 mod engine;
 mod gen;
 mod hist;
+mod tex;
 mod norm;
 mod props;
 
@@ -72,6 +73,7 @@ macro_rules! dispatch {
             "C17" => $f(&props::c17::C17 $(, $arg)*),
             "C16" => $f(&props::c16::C16 $(, $arg)*),
             "C03" => $f(&props::c03::C03 $(, $arg)*),
+            "C04" => $f(&props::c04::C04 $(, $arg)*),
             other => {
                 eprintln!("unknown property {}", other);
                 3
